@@ -26,7 +26,7 @@ def main():
     for d in sorted(glob.glob("/tmp/wt/C*/MUTANT*") + glob.glob("/tmp/wt/R2_C*/MUTANT*") + glob.glob("/tmp/wt/R3_C*/MUTANT*")):
         sid = "%s-m%s" % (d.split("/")[3], d[-1])
         pf = os.path.join(d, "patch.diff")
-        for alt in ("patch.rebased2.diff", "patch.rebased.diff"):
+        for alt in ("patch.rebased3.diff", "patch.rebased2.diff", "patch.rebased.diff"):
             if os.path.exists(os.path.join(d, alt)):
                 pf = os.path.join(d, alt)
                 break
